@@ -7,7 +7,7 @@ func init() {
 		ID:          "C15",
 		Level:       "other",
 		Run:         runC15,
-		Explanation: "Per-operation refinement (as C13): Context.Commit/Rollback/TransactionWriteRegister, RATCommit/RATRollback/RATFlush/InitRAT/TransactionRATWrite, registerRead and the rename table comp.RAT (Read, Find, Write, Values, FindValues, NewRAT) are reduced to normal forms — map iteration and ring scans as generic loop summaries whose bodies carry the strictness of `sequenceID < s`, the `<=` tag bound of reads, the induction variable that indexes the ring, and the lazily grown ring that bounds the wrapped scan — and compared with the reference model spec/risc_state.go.txt. With every operation equal to the model's, every history of writes/reads/commit/rollback/flush conforms by induction.",
+		Explanation: "Per-operation refinement (as C13): Context.Commit/Rollback/TransactionWriteRegister, RATCommit/RATRollback/RATFlush/InitRAT/TransactionRATWrite, registerRead and the rename table comp.RAT (Read, Find, Write, Values, FindValues, NewRAT) are reduced to normal forms — map iteration and ring scans as generic loop summaries whose bodies carry the strictness of `sequenceID < s`, the `<=` tag bound of reads, the induction variable that indexes the ring, and the lazily grown ring that bounds the wrapped scan — and compared with the reference model spec/risc_state.go.txt. The model keeps the uncommitted writes of a register ordered by sequence id (instructions complete out of order), folds a value into the committed table only if the committed one does not come from a younger instruction, and reads the committed value when it supersedes the uncommitted candidate. With every operation equal to the model's, every history of writes/reads/commit/rollback/flush conforms by induction.",
 		Assumptions: []string{
 			"within the ring capacity (uncommitted writes to one register <= ring length); beyond it only Write/Read/Values are covered",
 			"map iteration order does not matter for the per-key independent updates (argued under C08/R08.1)",
@@ -18,21 +18,21 @@ func init() {
 
 func runC15(r *Run) {
 	r.floor("R15.1", 3)
-	r.floor("R15.2", 5)
+	r.floor("R15.2", 7)
 	r.floor("R15.3", 1)
 	r.floor("R15.4", 2)
-	r.floor("R15.6", 4)
+	r.floor("R15.6", 5)
 	for _, m := range []string{"Commit", "Rollback", "TransactionWriteRegister"} {
 		conform(r, "R15.1", "risc", "Context", m, "risc_state", nil)
 	}
-	for _, m := range []string{"RATCommit", "RATRollback", "RATFlush", "InitRAT", "TransactionRATWrite"} {
+	for _, m := range []string{"RATCommit", "RATRollback", "RATFlush", "InitRAT", "TransactionRATWrite", "commitRAT", "isSuperseded"} {
 		conform(r, "R15.2", "risc", "Context", m, "risc_state", nil)
 	}
 	conform(r, "R15.3", "risc", "", "registerRead", "risc_state", nil)
 	for _, m := range []string{"Find", "FindValues"} {
 		conform(r, "R15.4", "proc/comp", "RAT", m, "risc_state", nil)
 	}
-	for _, m := range []string{"Write", "Read", "Values"} {
+	for _, m := range []string{"Write", "Read", "Values", "WriteSorted"} {
 		conform(r, "R15.6", "proc/comp", "RAT", m, "risc_state", nil)
 	}
 	conform(r, "R15.6", "proc/comp", "", "NewRAT", "risc_state", nil)
